@@ -18,6 +18,66 @@ TAKER_ID = 0x63
 ABSENT_ID = 0x77
 
 
+
+def match_roles(fn):
+    """which variables of match_order play the roles the inductive cubes need - found by position (parameters), type
+    (the MatchResult under construction, the list of set-aside makers) and data flow (the remaining quantity: the u64
+    that is initialised before the loop and rewritten inside it), so that renaming a local does not matter.
+    Returns {role: debug name}; roles that cannot be identified fall back to the names the code has today."""
+    fn.parse()
+    if hasattr(fn, '_roles'):
+        return fn._roles
+    inv = {idx: name for name, idx in fn.debug_names.items()}
+    plocals = [l for l, _ in fn.params]
+    roles = {}
+    for role, l in zip(('self', 'q', 'taker', 'gen'), plocals):
+        if l in inv:
+            roles[role] = inv[l]
+    res, sa, u64s = [], [], []
+    for name, idx in fn.debug_names.items():
+        if idx in plocals:
+            continue
+        ty = (fn.local_ty.get(idx) or '').strip()
+        if ty.startswith('&'):
+            continue
+        if ty.split('<')[0].split('::')[-1] == 'MatchResult':
+            res.append(name)
+        elif ty.split('<')[0].split('::')[-1] == 'Vec' and 'OrderType' in ty and 'Arc' in ty:
+            sa.append(name)
+        elif ty == 'u64':
+            u64s.append((name, idx))
+    if len(res) == 1:
+        roles['result'] = res[0]
+    if len(sa) == 1:
+        roles['set_aside'] = sa[0]
+    inloop = set()
+    for body in fn.loops().values():
+        inloop |= set(body)
+
+    def written(blocks):
+        w = set()
+        for b in blocks:
+            blk = fn.blocks[b]
+            for stt in blk[0]:
+                if stt[0] == 'assign':
+                    w.add(stt[1].local)
+            if blk[1] and blk[1][0] == 'call':
+                w.add(blk[1][1].local)
+        return w
+    w_in = written(inloop)
+    w_out = written([b for b in fn.blocks if b not in inloop and b not in fn.cleanup])
+    cand = [name for name, idx in u64s if idx in w_in and idx in w_out]
+    if len(cand) == 1:
+        roles['remaining'] = cand[0]
+    for role, default in (('self', 'self'), ('q', 'incoming_quantity'), ('taker', 'taker_order_id'),
+                          ('gen', 'transaction_id_generator'), ('result', 'result'), ('remaining', 'remaining'),
+                          ('set_aside', 'set_aside')):
+        if role not in roles and default in fn.debug_names:
+            roles[role] = default
+    fn._roles = roles
+    return roles
+
+
 class Hist(object):
     def __init__(self, ex, L, models, inp, price=None):
         self.ex = ex
@@ -111,6 +171,11 @@ class Hist(object):
             v = cst.mem.get(('L', fr.fid, idx), UNDEF)
             if v is not UNDEF:
                 d['locals'][n] = v
+        roles = match_roles(fr.fn) if fr.fn.name.endswith('::match_order') else {}
+        for role in ('remaining', 'result', 'set_aside'):
+            n = roles.get(role, role)
+            if n in d['locals'] and role not in d['locals']:
+                d['locals'][role] = d['locals'][n]
         d['remaining'] = d['locals'].get('remaining')
         d['result'] = d['locals'].get('result')
         return d
@@ -128,9 +193,14 @@ class Hist(object):
         self.ex.capture_cuts = True
         ncut = len(self.ex.cuts)
         nunw = len(self.ex.unwinds)
-        loc = {'self': self.lref, 'incoming_quantity': q, 'taker_order_id': taker,
-               'transaction_id_generator': self.gref, 'result': result, 'remaining': remaining}
-        loc.update(extra_locals or {})
+        roles = match_roles(fn)
+        byrole = {'self': self.lref, 'q': q, 'taker': taker, 'gen': self.gref, 'result': result, 'remaining': remaining}
+        byrole.update(extra_locals or {})
+        loc = {}
+        for role, v in byrole.items():
+            if role not in roles:
+                raise Unsupported('match_order: cannot identify the variable that plays the role %r' % role)
+            loc[roles[role]] = v
         r, st2, l, fr = self.ex.run_from(fn, block, loc, self.st.copy(), self._pc(), prologue=True)
         self.ex.block_bounds, self.ex.capture_cuts = saved
         cuts = [self._cut_record(g, cst, f2, b) for g, cst, f2, b in self.ex.cuts[ncut:]
@@ -139,7 +209,7 @@ class Hist(object):
                                          if not (u[1].endswith('::match_order') and u[2] == block)]
         self.ex.unwinds[:] = keep
         rec = {'op': 'match-iteration', 'q': q, 'taker': taker, 'ret': r, 'pre': pre, 'pre_level': pre_level,
-               'cuts': cuts, 'live': l, 'start': {'remaining': remaining, 'result': result, 'locals': loc}}
+               'cuts': cuts, 'live': l, 'start': {'remaining': remaining, 'result': result, 'locals': dict(loc, **byrole)}}
         if st2 is None:
             rec.update({'post': [], 'agg': None})
             self.live = S.FALSE
